@@ -59,6 +59,10 @@ void h_nng_sleep_aio(void) { nng_aio *a; nng_duration ms; VP_HAVOC_GHOSTS(); nng
 void h_nng_aio_reset(void) { nng_aio *a; VP_HAVOC_GHOSTS(); nng_aio_reset(a); VP_CANARY(); }
 void h_nng_aio_busy(void) { nng_aio *a; VP_HAVOC_GHOSTS(); nng_aio_busy(a); VP_CANARY(); }
 void h_nng_aio_wait(void) { nng_aio *a; VP_HAVOC_GHOSTS(); nng_aio_wait(a); VP_CANARY(); }
+void h_nng_aio_result(void) { nng_aio *a; VP_HAVOC_GHOSTS(); nng_aio_result(a); VP_CANARY(); }
+void h_nng_aio_count(void) { nng_aio *a; VP_HAVOC_GHOSTS(); nng_aio_count(a); VP_CANARY(); }
+void h_nng_aio_set_msg(void) { nng_aio *a; nng_msg *m; VP_HAVOC_GHOSTS(); nng_aio_set_msg(a, m); VP_CANARY(); }
+void h_nng_aio_get_msg(void) { nng_aio *a; VP_HAVOC_GHOSTS(); nng_aio_get_msg(a); VP_CANARY(); }
 void h_nng_ctx_sendmsg(void) { nng_ctx c; nng_msg *m; int flags; VP_HAVOC_GHOSTS(); nng_ctx_sendmsg(c, m, flags); VP_CANARY(); }
 void h_nng_ctx_recvmsg(void) { nng_ctx c; nng_msg **mp; int flags; VP_HAVOC_GHOSTS(); nng_ctx_recvmsg(c, mp, flags); VP_CANARY(); }
 void h_nng_send(void) { nng_socket s; const void *b; size_t n; int flags; VP_HAVOC_GHOSTS(); nng_send(s, b, n, flags); VP_CANARY(); }
